@@ -211,8 +211,10 @@ func init() {
 		hasFile := o.Path != "~"
 		initial := vunhex(o.Content)
 		create, update := shouldCreate(nil), shouldUpdate(nil)
+		ord := map[string]int{}
 		for _, c := range calls {
-			callS = append(callS, fmt.Sprintf("%d:%s:%s:~:%s:%s", c.g, vhex([]byte("["+c.test+" - #]")), vhex([]byte(escapeEndChars(c.value))), vb(create), vb(update)))
+			ord[c.test]++ // each goroutine runs ONE execution of its own test: the k-th call addresses [test - k]
+			callS = append(callS, fmt.Sprintf("%d:%s:%s:~:%s:%s", c.g, vhex([]byte(fmt.Sprintf("[%s - %d]", c.test, ord[c.test]))), vhex([]byte(escapeEndChars(c.value))), vb(create), vb(update)))
 		}
 		max := o.Count
 		if max <= 0 {
